@@ -1,5 +1,5 @@
 NAME = 'K-table'
-PROPERTIES = ['C09', 'C10']
+PROPERTIES = ['C09', 'C10', 'C14']
 ENGINE = 'verus'
 CLASS = 'U'
 DOC = ('Table (storage/table/mod.rs): every mutator re-establishes "the hash indexes are in sync with the row vector" - the fact the UPDATE / DELETE '
@@ -37,6 +37,8 @@ impl<'a> RowNormalizer<'a> {
 impl RowPred {
     pub uninterp spec fn holds(&self, r: Row) -> bool;
     #[verifier::external_body] pub fn call(&self, r: &Row) -> (b: bool) ensures b == self.holds(*r) { unimplemented!() }
+    // the closure `|row| row == target`
+    #[verifier::external_body] pub fn eq_to(target: &Row) -> (p: RowPred) ensures forall|r: Row| p.holds(r) == (r == *target) { unimplemented!() }
 }
 // `self.rows.iter().position(|row| row == target_row)`
 #[verifier::external_body]
@@ -179,12 +181,14 @@ ITEMS = {
                 final(self).rows@.len() + res == old(self).rows@.len(),
 '''),
     'remove_row': dict(file=_F, path='impl Table::fn remove_row', ret='res', rewrites=_TY + [
-        ('re', r'self\.rows\.iter\(\)\.position\(\|row\| row == target_row\)', 'position_of(&self.rows, target_row)', 1)],
+        ('re', r'self\.rows\.iter\(\)\.position\(\|row\| row == target_row\)', 'position_of(&self.rows, target_row)', None),
+        # an equality predicate closure handed to delete_where (R: FnMut parameter -> abstract pure predicate)
+        ('re', r'\|row\| row == (\w+)', r'&RowPred::eq_to(\1)', None)],
         contract='''
         requires old(self).wf()
         ensures final(self).wf(),
                 res is Err ==> final(self).rows@ == old(self).rows@,
-                res is Ok ==> final(self).rows@.len() + 1 == old(self).rows@.len(),
+                res is Ok ==> final(self).rows@.len() + 1 == old(self).rows@.len(),      // exactly ONE row goes (the savepoint undo of unit K-undo relies on it)
 '''),
     'rebuild_indexes': dict(file=_F, path='impl Table::fn rebuild_indexes', rewrites=_TY, contract='''
         ensures final(self).wf(), final(self).rows@ == old(self).rows@,
@@ -203,7 +207,7 @@ CANARIES = ['canary_delete', 'canary_update']
 TRUSTED = [
     'external_body IndexManager (new, rebuild, clear, update_for_insert, update_for_update, update_selective, update_for_delete, get_affected_indexes): ASSUMED contracts over the uninterpreted predicate synced(schema, rows); the HashMap<Vec<SqlValue>, usize> maintenance in table/indexes.rs (closures, iterator adapters, get_mut) is NOT verified. update_for_update / update_selective are assumed to re-sync only when handed the row that really was at that position',
     'external_body Row (clone is a copy), TableSchema, AppendModeTracker::reset, TableStatistics, RowNormalizer (normalize_and_validate: any result), ColSet / IndexTypes (HashSet<usize>, Vec<IndexType>): opaque',
-    'external_body RowPred::call: the FnMut(&Row) -> bool parameter of delete_where as a pure function of the row',
+    'external_body RowPred::call / eq_to: the FnMut(&Row) -> bool parameter of delete_where as a pure function of the row; `|row| row == target` as its equality instance',
     'external_body position_of: rows.iter().position(|r| r == target) returns a valid position holding an equal row (std, Row::eq)',
     'R10 rewrites (slice forms): for .. in v.iter().enumerate() / v.iter().rev() / &v -> index loops; rows[i] = x -> rows.set(i, x)',
     'Table::insert (normalisation, append tracker, statistics) is not under contract here: its IndexManager call is update_for_insert(schema, row, rows.len() before push)',
